@@ -197,5 +197,65 @@ inductive ReachAny : St → Prop
   | init (scripts : List (List Op)) (nq : Nat) : ReachAny (init scripts nq)
   | step {s s' : St} (t : Th) : ReachAny s → step s t = some s' → ReachAny s'
 
+/-! ### gate-level view for one application thread on one queue
+The schedule-forcing harness (`harness/c12.go`) parks the real goroutines at the yield points and
+records `c12 sched` cases; `harness/c12_deep.go` re-submits every such case as `c12 ksched`, answered
+by THIS model with `k = 1`, `m = 1`: a harness move is `step` iterated to the next park point (the
+engine pcs `loop`, `deq (i+1)`, `notify`, `clear` and the application pc `enqN` are not park points; a
+sender blocked on `enqueueSignal` is served as soon as `runAsync` is back in its `select`). -/
+
+def script1 (rounds : List Nat) : List Op := rounds.flatMap fun k => List.replicate k (Op.enq 0) ++ [Op.drain 0]
+
+def parkedE : EPc → Bool
+  | .none => true | .start => true | .deq 0 => true | .afterRun => true | _ => false
+
+def settleE : Nat → St → St
+  | 0, s => s
+  | n + 1, s => if parkedE s.e then s else
+      match step s .eng with
+      | none => s
+      | some s' => settleE n s'
+
+def settleA (s : St) : St := match s.apps[0]? with
+  | some a => if a.pc = .enqN then (match step s (.app 0) with | some s' => s' | none => s) else s
+  | none => s
+
+def settleR (s : St) : St :=
+  if s.r = .idle then (match s.apps[0]? with
+    | some a => if a.pc = .sending then (match step s (.app 0) with | some s' => s' | none => s) else s
+    | none => s)
+  else s
+
+def macroStep (s : St) (role : String) : Option St :=
+  match role with
+  | "a" => (step s (.app 0)).map settleA
+  | "r" => (step s .async).map settleR
+  | "e" => (step s .eng).map (settleE 12)
+  | _ => none
+
+def apcName : APc → String
+  | .idle => "idle" | .enqN => "enqN" | .sig => "sig" | .sending => "sending" | .chk => "chk" | .toWait => "toWait" | .waiting => "waiting"
+def rpcName : RPc → String
+  | .idle => "idle" | .tick => "tick" | .chkFlag => "chkFlag"
+def epcName : EPc → String
+  | .none => "none" | .start => "start" | .loop => "loop" | .deq _ => "deq" | .notify _ => "notify"
+  | .afterRun => "afterRun" | .clear => "clear"
+def b01 (b : Bool) : String := if b then "1" else "0"
+
+def showSt1 (s : St) : String :=
+  match s.apps[0]? with
+  | some a => s!"{apcName a.pc}.{rpcName s.r}.{epcName s.e}:{Util.joinWith "," ((cmdsOf s 0).map toString)}:{b01 a.token}:{b01 s.running}{b01 s.pend}:{a.returned}"
+  | none => "no-app"
+
+def runTrace1 (s : St) : List String → List String → List String
+  | [], acc => acc.reverse
+  | w :: ws, acc =>
+    if w = "a" ∨ w = "r" ∨ w = "e" then
+      match macroStep s w with
+      | none => runTrace1 s ws ("-" :: acc)
+      | some s' => runTrace1 s' ws (showSt1 s' :: acc)
+    else ("bad" :: acc).reverse
+
 end K
+
 end C12
